@@ -145,8 +145,9 @@ claim("C19",
       "traverses, every cell and strata samples are replayed on geodepy.survey / convert; Trace_Survey (TLC) decides every clause "
       "with exact rational expectations or its own fixed-point sine/cosine: joins/radiations closure 1e-9 x distance, bearing in "
       "[0, 360), rotation and scale, Pythagoras and heights-shift-only-dh of va_conv, correction defined for every valid "
-      "atmosphere, proportionality, CO2 form identity, 1 ppm agreement at 420 ppm for 0.5-1.0 um, dispersion identity.",
-      "Not decided: the empirical refractivity / Rueger constants themselves (only the cross-relations); sign of dh for face-right "
+      "atmosphere, proportionality, CO2 form identity, 1 ppm agreement at 420 ppm for 0.5-1.0 um, dispersion identity; the shipped table "
+      "of Ciddor / Owens / Davis constants equals the published one (RefractivityConstants.tla).",
+      "Not decided: the Rueger closed-form constants themselves (only through the 1 ppm agreement and the cross-relations); sign of dh for face-right "
       "zenith angles; cells where the property is silent are free. Trusted: TLC, BigFix, alpha's exact encodings.",
       "TLA+ state machine + validity tables checked exhaustively by TLC, TLC-generated behaviours/cells replayed into the code, TLC trace validation with exact lattice oracle",
       "DESIGN.md section 4 C19")
